@@ -263,11 +263,20 @@ def gen_skeleton(rng, with_acts):
                                 "acts": [], "clones": []}]}
             framers.append(moot)
             names["framer"].append("mike")
-            names["tag"] = TAGS[:rng.choice([1, 2, 2, 3])]
-            for tag in names["tag"]:              # the moot is cloned one to three times
-                host = rng.choice(framers[0]["frames"])
+            # the moot is cloned one to four times, in frames of any of the other framers; a tag is unique within
+            # one main framer only, so different main framers may use the same tag (clone names <main>_<tag>)
+            names["tag"] = []
+            hosts = [fr for fr in framers if fr["sched"] != "moot"]
+            for _c in range(rng.choice([1, 2, 2, 3, 4])):
+                hf = rng.choice(hosts)
+                free = [t for t in TAGS if hf["name"] + ":" + t not in names["tag"]]
+                if not free:
+                    continue
+                tag = rng.choice(free[:2])
+                names["tag"].append(hf["name"] + ":" + tag)
+                host = rng.choice(hf["frames"])
                 host["clones"].append({"of": "mike", "tag": tag,
-                                       "via": gen_ref(rng, True, names, safe=True, main_ok=False, unique=True) if rng.random() < 0.4 else None})
+                                       "via": gen_ref(rng, True, names, safe=True, main_ok=False, unique=True) if rng.random() < 0.65 else None})
         ai = 0
         for fr in framers:
             mok = fr["sched"] == "moot"
@@ -399,7 +408,8 @@ def rename_prog(prog, kind, old, new):
                     f["over"] = new
             f["via"] = rename_ref(f["via"], kind, old, new)
             for c in f["clones"]:
-                if kind == "tag" and c["tag"] == old:
+                # a clone tag is renamed in ONE main framer (old = "<main framer>:<tag>")
+                if kind == "tag" and fr["name"] + ":" + c["tag"] == old:
                     c["tag"] = new
                 if kind == "framer" and c["of"] == old:
                     c["of"] = new
@@ -451,7 +461,8 @@ def replace_name(path, kind, old, new):
         return ".".join(new if s == old else new + s[len(old):]
                         if s.startswith(old + "_") and s[len(old) + 1:] in alltags else s for s in segs)
     if kind == "tag":
-        return ".".join(s[:-len(old)] + new if s.endswith("_" + old) else s for s in segs)
+        host, tag = old.split(":")
+        return ".".join(host + "_" + new if s == host + "_" + tag else s for s in segs)
     o, n = actor_parts(old), actor_parts(new)
     out, i = [], 0
     while i < len(segs):
@@ -807,6 +818,25 @@ class CHECK(core.Check):
         paths = ["x", "x.y", ".x.y", "frame.me.x", "actor.me.x", "framer.me.x", "frame.x", "me.x",
                  "frame.main.x", "frame.mainloop.x", "frame.me2.x", "framer.meter.x", "actor.Pump2.x"] + \
             (["x.", ".x."] if tier == "thorough" else [])
+        # two main framers clone the same moot under the SAME tag with different `via` inodes; the moot's
+        # inode-relative references (root-relative path, `of me`, a doer's ioinit) belong to each clone's own
+        # inode context; one clone's tag / one main framer is renamed
+        def fr(name, sched, via, frames):
+            return {"name": name, "sched": sched, "via": via, "frames": frames}
+
+        def fm(name, acts=(), clones=(), via=None):
+            return {"name": name, "over": None, "via": via, "acts": list(acts), "clones": list(clones)}
+        node = lambda p: {"path": p, "rel": None}
+        moot_acts = [{"verb": "put", "ref": {"path": "v1", "rel": None}},
+                     {"verb": "put", "ref": {"path": "nb.v2", "rel": ["me"]}},
+                     {"verb": "do", "src": {}, "via": None, "per": [["k1", ""]], "as": ["do", "it"]}]
+        for va, vb in ((".na.", ".nb."), ("nc.", ".nd.na."), (None, ".nb.")):
+            for ren in (["tag", "alpha:cl", "zz"], ["tag", "bravo:cl", "zz"], ["framer", "bravo", "zqx"], ["framer", "alpha", "zqx"]):
+                prog = {"actors": [["do", "it"]], "framers": [
+                    fr("alpha", "active", None, [fm("fone", clones=[{"of": "mike", "tag": "cl", "via": node(va) if va else None}])]),
+                    fr("bravo", "active", None, [fm("ftwo", clones=[{"of": "mike", "tag": "cl", "via": node(vb) if vb else None}])]),
+                    fr("mike", "moot", None, [fm("ftri", acts=moot_acts)])]}
+                out.append({"kind": "prog", "prog": prog, "rename": ren, "origin": "exhaustive"})
         for p in paths:
             for rel in rels(3):
                 for node in ((0, 1) if tier == "thorough" else (0,)):
@@ -1037,7 +1067,7 @@ class CHECK(core.Check):
         if case["kind"] == "parse":
             return True
         kind, old, new = case["rename"]
-        key = actor_parts(old)[0] if kind == "actor" else old
+        key = actor_parts(old)[0] if kind == "actor" else old.replace(":", "_") if kind == "tag" else old
         return any(key in line.split(".") or key in re.split(r"[._ ]", line) for line in out if not line.startswith("store"))
 
     def bucket(self, case, out):
